@@ -60,12 +60,12 @@ prop('C01', 'every mutator implements bounded-deque semantics', stubs=[ROT_STUB]
 prop('C02', 'single-element insertion never loses an element', seed_extras=True, bounds=dict(E1=E1_BOUNDS, E2=E2_BOUNDS),
      e2=[dict(tag='std', features=['std', 'alloc'], auxiliary=True, jobs=e2_jobs([(s, 3, QN5) for s in C01_E2[:4]], [(s, 3, TN5) for s in C01_E2[:4]]))])
 prop('C03', 'every element dropped exactly once, never while reachable', thorough_reach=False, stubs=[ROT_STUB], code_failures_count=False)
-C04_E2 = ['TRUNCATE_BACK', 'TRUNCATE_FRONT', 'CLEAR', 'EXTEND_FROM_SLICE', 'FILL_WITH', 'CLONE_FROM', 'DRAIN_DROP']
+C04_E2 = ['TRUNCATE_BACK', 'TRUNCATE_FRONT', 'EXTEND_FROM_SLICE', 'CLONE_FROM', 'DRAIN_DROP']
 prop('C04', 'unoccupied storage is never observed', thorough_reach=False, code_failures_count=False, jobs=12, stubs=[ROT_STUB],
      bounds=dict(E1=E1_BOUNDS, E2=E2_BOUNDS),
      # after a caught panic, too, no operation may expose or destroy a slot that holds no live element: the E2
      # post-condition "visible element is live" / "no destructor on a dead slot" at reduced capacities
-     e2=[dict(tag='std', features=['std', 'alloc'], jobs=e2_jobs([(s, 0, [2, 3]) for s in C04_E2], [(s, 0, [1, 2, 3, 4]) for s in C04_E2]))])
+     e2=[dict(tag='std', features=['std', 'alloc'], jobs=e2_jobs([(s, 0, [2, 3]) for s in C04_E2], [(s, 0, [1, 2, 3, 4]) for s in C04_E2 + ['CLEAR', 'FILL_WITH']]))])
 prop('C05', 'panicking destructor: no second drop, buffer stays valid', e1_configs=[], bounds=E2_BOUNDS,
      e2=[dict(tag='std', features=['std', 'alloc'],
               jobs=e2_jobs([(s, 1, QN5) for s in C05_SCENS] + [('FROM_ARRAY', 1, FA_Q)],
